@@ -487,9 +487,7 @@ def refine_disagreement(run, m, line, o, me, r, n, v, d):
     c = me["case"]
     tree = m["trees"][c["tn"]]
     fid = None
-    if syn == "uper" and (C02.ref_to_choice(m, c["tn"]) or C02.uses_choice_ref(m, dict(m["defs"])[c["tn"]])) and r["rc"] == "FAIL":
-        fid = "C01-choice-ref-no-per"
-    elif syn == "ber":
+    if syn == "ber":
         try:
             acc = BerAccepted(tree, me["data"])
             if r["rc"] == "FAIL" and acc.mixed_chains():
@@ -510,7 +508,7 @@ def refine_disagreement(run, m, line, o, me, r, n, v, d):
     run.violation("refinement:Rt.%s_dec" % syn, rep)
 
 
-FOREIGN_IDS = {"C01-choice-ref-no-per", "C01-uper-semiconstrained-lb", "C16-umax-negative", "C16-ulong-signed"}
+FOREIGN_IDS = {"C01-uper-semiconstrained-lb", "C16-umax-negative", "C16-ulong-signed"}
 
 
 def all_findings():
